@@ -164,7 +164,7 @@ def _scan_worker_output(prop, exe, seed, outdir, tag, rc, res):
         # the worker died inside a run: regenerate that plan and treat it like a candidate
         if last is not None:
             pp = os.path.join(outdir, "crash-%s-%d.plan" % (prop, last))
-            g = polysim(exe, ["gen", "--prop", prop, "--seed", str(seed), "--start", str(last)])
+            g = polysim(exe, ["gen", "--prop", prop, "--seed", str(seed), "--start", str(last)] + (["--fresh"] if "-fresh" in outdir else []))
             open(pp, "w").write(g.stdout)
             res["crashes"].append((pp, rc, text[-1500:]))
         else:
@@ -177,13 +177,14 @@ def _scan_worker_output(prop, exe, seed, outdir, tag, rc, res):
             pass
 
 
-def run_config(prop, cfg, exe, seed, budget, nworkers, tmp, runs_cap=10 ** 9, chunk=0, start=0):
+def run_config(prop, cfg, exe, seed, budget, nworkers, tmp, runs_cap=10 ** 9, chunk=0, start=0, fresh=False):
     """chunk == 0: nworkers long-lived processes share the run indices round-robin.
     chunk > 0: a pool of short-lived processes, each executing `chunk` consecutive run indices, so that one run in
     `chunk` starts from a fresh process image (first-use effects such as lazy initialisation)."""
-    outdir = os.path.join(tmp, cfg)
+    outdir = os.path.join(tmp, cfg + ("-fresh" if fresh else ""))
     os.makedirs(outdir, exist_ok=True)
     res = {"candidates": [], "crashes": [], "nondet": [], "workers": []}
+    extra = ["--fresh"] if fresh else []
     if chunk:
         nchunks = (runs_cap + chunk - 1) // chunk if runs_cap < 10 ** 8 else 10 ** 8
         t_end = time.time() + budget
@@ -200,7 +201,7 @@ def run_config(prop, cfg, exe, seed, budget, nworkers, tmp, runs_cap=10 ** 9, ch
                 with open(os.path.join(outdir, "out-%d.txt" % c), "w") as log:
                     runs = min(chunk, runs_cap - c * chunk)
                     rc = subprocess.call([exe, "run", "--prop", prop, "--seed", str(seed), "--start", str(start + c * chunk), "--runs", str(runs), "--tag", str(c),
-                                          "--outdir", outdir, "--data", DATA], stdout=log, stderr=subprocess.STDOUT)
+                                          "--outdir", outdir, "--data", DATA] + extra, stdout=log, stderr=subprocess.STDOUT)
                 with lock:
                     _scan_worker_output(prop, exe, seed, outdir, c, rc, res)
 
@@ -293,6 +294,15 @@ def main():
     with ThreadPoolExecutor(4) as ex:
         exes = dict(zip([c for c, _ in plan], ex.map(B.build, [c for c, _ in plan])))
     build_s = time.time() - t0
+    try:
+        notes_src = json.load(open(os.path.join(os.path.dirname(list(exes.values())[0]), "build.json"))).get("source_patterns_noted", [])
+    except Exception:
+        notes_src = []
+    race_oracle_off = any(("atomic" in n) for n in notes_src)
+    if race_oracle_off:
+        # oracle (R) has no happens-before model for atomics: rather than risk an alarm on correct code it is switched off
+        # (oracles (S) and (O) do not depend on it); the evidence says so
+        os.environ["POLYSIM_NO_R"] = "1"
     tmp = tempfile.mkdtemp(prefix="polysim-%s-" % prop)
     violations, known, notes = [], [], []
     fresh = {}
@@ -330,6 +340,28 @@ def main():
                 else:
                     lineage = lambda r, n=nw, st=start: (st + (r - st) % n, n)
                 kind, info = handle_candidate(prop, cfg, exes[cfg], pp, tmp, seed, lineage)
+                if kind == "violation":
+                    if info[1] not in seen_cls:
+                        violations.append((cfg,) + info)
+                        seen_cls.add(info[1])
+                elif kind == "known":
+                    known.append((cfg,) + info)
+                else:
+                    harness_fault = info
+        # ---- fresh process images: plans that do not reset anything, each the first and only run of a new process
+        fresh_runs = {}
+        for k, (cfg, share) in enumerate(plan[:2]):
+            if violations:
+                break
+            nfresh = (240 if cfg != "san" else 48) if tier == "quick" else (4000 if cfg != "san" else 400)
+            nw = min(nworkers, 8) if cfg == "san" else nworkers
+            res = run_config(prop, cfg, exes[cfg], seed, 200.0 if tier == "quick" else budget * 0.1, nw, tmp, runs_cap=nfresh, chunk=1, start=900000000 + k * 1000000, fresh=True)
+            workers_all[cfg] = workers_all.get(cfg, []) + res["workers"]
+            fresh_runs[cfg] = res.get("fresh_processes", 0)
+            cands = list(res["candidates"]) + [pp for pp, rc, tail in res["crashes"] if pp]
+            seen_cls = set()
+            for pp in cands[:3]:
+                kind, info = handle_candidate(prop, cfg, exes[cfg], pp, tmp, seed, None)
                 if kind == "violation":
                     if info[1] not in seen_cls:
                         violations.append((cfg,) + info)
@@ -395,6 +427,8 @@ def main():
                 "per_build_configuration": per_cfg,
                 "determinism_sample": det,
                 "fresh_process_images": fresh,
+                "fresh_single_run_processes": fresh_runs,
+                "race_oracle_R": "off: the sources use atomics" if race_oracle_off else ("on" if prop == "C20" else "not part of this check"),
                 "components": REAL_VS_STUB,
                 "build_info": binfo,
                 "known_findings_reported": [k[1][0].get("id", "?") for k in known],
